@@ -8,7 +8,7 @@ HERE = os.path.dirname(os.path.dirname(os.path.abspath(__file__)))
 CHECKS = {
  "C05": ("exploration",
          "reference-model history monitor + invariant hook (bounded-exhaustive BFS over slot layouts, long random histories)",
-         "Every operation of the ordered map is applied from every slot layout reachable within a bounded history length (three keys, stale tombstone keys included) and in long random histories over 4/16/200 keys and an alphabet of look-alike and control-character keys that cross the compaction threshold thousands of times, started from empty maps and from maps built with MapFromItems out of a caller-owned slice (which, like a sibling built from it, must stay untouched); after every operation all observers (Len, IsZero, Get, Contains, Range incl. early exit and renaming callbacks, ToMap, ToMapRecursive, both encoders re-read with independent readers, Equal against an independently built twin, perturbed twins and a pool of reached states) are compared with a list-of-pairs model and the index/slot invariant hook is evaluated. A large-map phase empties maps of 1022 to 4096 / 9000 keys in bulk in five patterns and writes to them again. Held on the executions observed; not a proof.",
+         "Every operation of the ordered map is applied from every slot layout reachable within a bounded history length (three keys, stale tombstone keys included) and in long random histories over 4/16/200 keys and an alphabet of look-alike and control-character keys that cross the compaction threshold thousands of times, started from empty maps and from maps built with MapFromItems out of a caller-owned slice (which, like a sibling built from it, must stay untouched); after every operation all observers (Len, IsZero, Get, Contains, Range incl. early exit and renaming callbacks, ToMap, ToMapRecursive, both encoders re-read with independent readers, Equal against an independently built twin, perturbed twins and a pool of reached states) are compared with a list-of-pairs model and the index/slot invariant hook is evaluated. A large-map phase empties maps of 1022 to 4096 / 9000 keys in bulk in five patterns and writes to them again. A nested-equal phase compares maps whose container values hold ordered maps of equal content and different histories. Held on the executions observed; not a proof.",
          "Trusts the list-of-pairs model, encoding/json's token reader and yaml.v3's Node reader as independent readers; values are opaque to the map so layouts, not values, are enumerated.",
          "DESIGN.md §2 C05"),
  "C10": ("exploration",
@@ -58,7 +58,7 @@ CHECKS = {
          "DESIGN.md §2 C09"),
  "C01": ("exploration",
          "metamorphic monitor: sign -> single-point mutation -> verify must fail whenever the harness's semantic form of the presented content changed; positive controls; payload channel cross-check",
-         "Generated command steps are signed with each supported key kind; positive controls must verify (and Verify must rebuild exactly Sign's payload, read from the debug logger channel); every applicable mutation of a ~60-kind catalogue (command, step env, plugin sequence/sources/config leaves at depth, matrix, repository URL, verify-time env incl. shadowing, the signature record: algorithm, field list, spliced/truncated/bit-flipped value, replaced header; and the key) is presented and Verify must return an error whenever the independently computed semantic form differs or the record/key was altered. Field lists altered without changing their length are presented with exactly the signed environment. Held on the executions observed.",
+         "Generated command steps are signed with each supported key kind; positive controls must verify (and Verify must rebuild exactly Sign's payload, read from the debug logger channel); every applicable mutation of a ~60-kind catalogue (command, step env, plugin sequence/sources/config leaves at depth, matrix, repository URL, verify-time env incl. shadowing, the signature record: algorithm, field list, spliced/truncated/bit-flipped value, replaced header; and the key) is presented and Verify must return an error whenever the independently computed semantic form differs or the record/key was altered. Field lists altered without changing their length are presented with exactly the signed environment. A quarter of the steps are signed as the last of three by SignSteps after siblings that shadow every pipeline variable. Held on the executions observed.",
          "Trusts the JOSE library's cryptography; semantic form is the harness's reading of the signed content; list re-ordering/duplication and ECDSA malleability are not single-point semantic changes; K1 replayed as known finding.",
          "DESIGN.md §2 C01"),
  "C02": ("exploration",
@@ -98,7 +98,7 @@ CHECKS = {
          "DESIGN.md §2 C16"),
  "C19": ("exploration",
          "Go race detector (-race build) over barrier-released 16-goroutine workloads + sequential-vs-concurrent result comparison + deep before/after state monitor (hook slot layout, unexported fields included) + long-lived-process versus fresh-child-process comparison of whole life cycles (history independence)",
-         "The monitor binary is built with -race; 16 goroutines run whole life cycles on disjoint documents (results compared with a sequential re-run) and hammer fresh, never-before-observed shared fixtures (an ordered map carrying tombstones, a parsed and signed pipeline, a key set, a private key with a shared step, a plugin) with every observer, results compared with those computed on an identically built twin; race reports are read from the detector's log files and any report with a go-pipeline frame is a violation; sequentially, deep state including unexported fields, the env map, the key set and the hook's slot layout is compared around every observer; finally the life cycle of generated and corpus documents at the end of the long-lived process is compared with the same life cycle in a fresh child process each (no hidden state carried from one call to the next). Cold-start child processes run their first Parse on 16 goroutines at once under the race detector. Held on the schedules the Go scheduler produced; the overlap achieved is recorded.",
+         "The monitor binary is built with -race; 16 goroutines run whole life cycles on disjoint documents (results compared with a sequential re-run) and hammer fresh, never-before-observed shared fixtures (an ordered map carrying tombstones, a parsed and signed pipeline, a key set, a private key with a shared step, a plugin) with every observer, results compared with those computed on an identically built twin; race reports are read from the detector's log files and any report with a go-pipeline frame is a violation; sequentially, deep state including unexported fields, the env map, the key set and the hook's slot layout is compared around every observer; finally the life cycle of generated and corpus documents at the end of the long-lived process is compared with the same life cycle in a fresh child process each (no hidden state carried from one call to the next). Cold-start child processes run their first Parse on 16 goroutines at once under the race detector. Every goroutine of the disjoint phase also builds and interpolates a pipeline whose env block comes from one shared read-only list of pairs. Held on the schedules the Go scheduler produced; the overlap achieved is recorded.",
          "The race detector only sees accesses that executed; randomised ECDSA/PSS signatures are compared by verification.",
          "DESIGN.md §2 C19"),
 }
